@@ -29,7 +29,7 @@ EXPLANATION = (
     "norm_factor multiplies exactly those overlaps. D1/D2 are read off the same comparisons.")
 ASSUMPTIONS = [
     "agreement of the derived expressions with explicit RSPT is not decided; the formulas above are the library's own conventions",
-    "skeletons are evaluated for orders 0..4 and singles/doubles/triples spaces only (bounded)",
+    "skeletons are evaluated for orders 0..4 (thorough tier: up to 7) and singles/doubles/triples spaces only (bounded)",
     "wicks, Fd, F, NO, Dagger, AntiSymmetricTensor, Amplitude, orb_energy and simplify are uninterpreted; Indices is modelled",
 ]
 
@@ -331,7 +331,7 @@ def d3_psi(ctx):
     rule = "D3"
     fn = ctx.model.fn(f"{GS}.psi")
     for singles in (False, True):
-        for order in (0, 1, 2, 3):
+        for order in dx.orders(ctx, (0, 1, 2, 3), (4, 5)):
             for bk in ("ket", "bra"):
                 scen, idx = dx.Scenario(singles=singles), Idx()
                 sx = _sx(ctx, "psi", scen, idx)
@@ -394,7 +394,7 @@ def r02b(ctx):
     rule = "R02b"
     # energy
     fn = ctx.model.fn(f"{GS}.energy")
-    for order in (0, 1, 2, 3, 4):
+    for order in dx.orders(ctx, (0, 1, 2, 3, 4), (5, 6, 7)):
         scen, idx = dx.Scenario(), Idx()
         sx = _sx(ctx, "energy", scen, idx)
         outs = sx.run(fn, lambda: dict(self=_gs(scen), order=order))
@@ -404,7 +404,7 @@ def r02b(ctx):
         dx.check_formula(ctx, rule, fn, f"energy({order})", outs, formula, key=f"energy {order}")
     # overlap
     fn = ctx.model.fn(f"{GS}.overlap")
-    for order in (0, 1, 2, 3, 4):
+    for order in dx.orders(ctx, (0, 1, 2, 3, 4), (5, 6, 7)):
         scen, idx = dx.Scenario(), Idx()
         sx = _sx(ctx, "overlap", scen, idx)
         outs = sx.run(fn, lambda: dict(self=_gs(scen), order=order))
@@ -412,7 +412,7 @@ def r02b(ctx):
         dx.check_formula(ctx, rule, fn, f"overlap({order})", outs, formula, key=f"overlap {order}")
     # expectation value
     fn = ctx.model.fn(f"{GS}.expectation_value")
-    for order in (0, 1, 2, 3):
+    for order in dx.orders(ctx, (0, 1, 2, 3), (4, 5)):
         for npart in (1, 2):
             scen, idx = dx.Scenario(), Idx()
             sx = _sx(ctx, "expectation_value", scen, idx)
@@ -443,7 +443,7 @@ def r02a(ctx):
         fn = ctx.model.fn(f"{GS}.{meth}")
         for singles in (False, True):
             for space, istr in cases:
-                for order in (0, 1, 2, 3):
+                for order in dx.orders(ctx, (0, 1, 2, 3), (4, 5)):
                     scen, idx = dx.Scenario(singles=singles, gs_variant="mp" if meth == "mp_amplitude" else "re"), Idx()
                     sx = _sx(ctx, meth, scen, idx)
                     outs = sx.run(fn, lambda: dict(self=_gs(scen), order=order, space=space, indices=istr))
